@@ -700,7 +700,7 @@ impl Part for FailingIncludes {
         let form = FORMS[c.form as usize % FORMS.len()];
         let wrapper = WRAPPERS[c.wrapper as usize % WRAPPERS.len()];
         let inner = format!("in({})", open.replace('@', failing));
-        let main = format!("\u{2039}pre\u{203a}{}\u{2039}post\u{203a}{{{{ \"<\" }}}}{{{{ leak is defined }}}}{{{{ cap is defined }}}}", wrapper.replace('@', form));
+        let main = format!("\u{2039}pre\u{203a}{}\u{2039}post\u{203a}{{{{ \"<\" }}}}{{{{ 1 if leak is defined else 0 }}}}{{{{ 1 if cap is defined else 0 }}}}", wrapper.replace('@', form));
         let mut v = Verdict::pass(c.open > 0 && c.form < 4);
         for html in [false, true] {
             let mut env = Environment::new();
@@ -722,7 +722,7 @@ impl Part for FailingIncludes {
                 Ok(out) => {
                     v.labels.push("render_goes_on");
                     let lt = if html { "&lt;" } else { "<" };
-                    let tail = format!("\u{2039}post\u{203a}{lt}falsefalse");
+                    let tail = format!("\u{2039}post\u{203a}{lt}00");
                     if !out.starts_with("\u{2039}pre\u{203a}") || !out.ends_with(&tail) {
                         v.set_fail(
                             "text_after_failed_include_lost",
@@ -748,7 +748,92 @@ impl Part for FailingIncludes {
     }
 }
 
-crate::declare_parts!(Scopes, FailingIncludes);
+// ------------------------------------------------------------------ break / continue in an else branch
+
+/// `break` / `continue` written in the `else` branch of a loop belong to the *enclosing* loop, or
+/// are rejected when there is none. Whichever the engine does, leaving must not release a
+/// construct twice or skip the text after it.
+#[derive(Clone, Debug, Serialize, Deserialize)]
+pub struct ElseControlCase {
+    pub wrapper: u8,
+    pub control: u8,
+    pub outer_loop: bool,
+}
+
+pub struct ControlsInElse;
+
+const ELSE_WRAPPERS: [&str; 7] = [
+    "@",
+    "{% with w = 1 %}[{{ w }}]@{% endwith %}",
+    "{% set c %}cap@{% endset %}[{{ c }}]",
+    "{% filter upper %}f@{% endfilter %}",
+    "{% autoescape true %}@{{ '<' }}{% endautoescape %}",
+    "{% macro em() %}m@{% endmacro %}{{ em() }}",
+    "{% with w = 1 %}{% set c %}{% filter upper %}@{% endfilter %}{% endset %}{{ c }}{% endwith %}",
+];
+const ELSE_CONTROLS: [&str; 4] = ["{% continue %}", "{% break %}", "{% if true %}{% continue %}{% endif %}", "{% with z = 2 %}{% break %}{% endwith %}"];
+
+impl Part for ControlsInElse {
+    type Case = ElseControlCase;
+    const NAME: &'static str = "loop_controls_in_else_branch";
+
+    fn strategy(_tier: Tier) -> BoxedStrategy<ElseControlCase> {
+        let all = Self::enumeration(Tier::Quick);
+        (0..all.len()).prop_map(move |i| all[i].clone()).boxed()
+    }
+
+    fn enumeration(_tier: Tier) -> Vec<ElseControlCase> {
+        let mut out = vec![];
+        for wrapper in 0..ELSE_WRAPPERS.len() as u8 {
+            for control in 0..ELSE_CONTROLS.len() as u8 {
+                for outer_loop in [false, true] {
+                    out.push(ElseControlCase { wrapper, control, outer_loop });
+                }
+            }
+        }
+        out
+    }
+
+    fn check(c: &ElseControlCase) -> Verdict {
+        let ctl = ELSE_CONTROLS[c.control as usize % ELSE_CONTROLS.len()];
+        let inner = format!("{{% for q in [] %}}body{{% else %}}e{ctl}skipped{{% endfor %}}");
+        let wrapped = ELSE_WRAPPERS[c.wrapper as usize % ELSE_WRAPPERS.len()].replace('@', &inner);
+        let main = if c.outer_loop {
+            format!("\u{2039}pre\u{203a}{{% for o in [1, 2] %}}({wrapped}){{% endfor %}}\u{2039}post\u{203a}{{{{ \"<\" }}}}{{{{ 1 if w is defined else 0 }}}}{{{{ 0 }}}}")
+        } else {
+            format!("\u{2039}pre\u{203a}{wrapped}\u{2039}post\u{203a}{{{{ \"<\" }}}}{{{{ 1 if w is defined else 0 }}}}{{{{ 0 }}}}")
+        };
+        let mut v = Verdict::pass(true);
+        let mut env = Environment::new();
+        env.set_fuel(Some(100_000));
+        if env.add_template_owned("main.txt".to_string(), main.clone()).is_err() {
+            v.labels.push("rejected_at_load");
+            return v;
+        }
+        let _ = minijinja::verif::take_balance_reports();
+        let res = crate::runner::guarded(|| env.get_template("main.txt").unwrap().render(()));
+        let reports = minijinja::verif::take_balance_reports();
+        match res {
+            Err((sig, raw)) => v.set_fail("panic_in_else_branch_control", format!("{sig}: {raw}\nsource: {main}")),
+            Ok(Err(_)) => v.labels.push("render_fails"),
+            Ok(Ok(out)) => {
+                v.labels.push("accepted");
+                if !out.starts_with("\u{2039}pre\u{203a}") || !out.ends_with("\u{2039}post\u{203a}<00") || out.matches("\u{2039}pre\u{203a}").count() != 1 {
+                    v.set_fail("text_after_construct_lost", format!("rendered {out:?}: the text before must appear once and the text, escape mode and scope after the construct must be intact\nsource: {main}"));
+                } else if !reports.is_empty() {
+                    v.set_fail("balance_report", format!("the engine's balance monitor reported {reports:?}\nsource: {main}"));
+                }
+            }
+        }
+        v
+    }
+
+    fn show(c: &ElseControlCase) -> serde_json::Value {
+        serde_json::json!({"wrapper": ELSE_WRAPPERS[c.wrapper as usize % ELSE_WRAPPERS.len()], "control": ELSE_CONTROLS[c.control as usize % ELSE_CONTROLS.len()], "outer_loop": c.outer_loop})
+    }
+}
+
+crate::declare_parts!(Scopes, FailingIncludes, ControlsInElse);
 
 pub fn run(ctx: &mut Ctx) {
     ctx.rule = "skeletons of nested scoped constructs (for with/without else, loop filter, recursive; with; set-block; filter block; autoescape on/off; if/else; macro + call; call block; scoped block; include of a template with its own break/continue; include / import / from-import of a template that itself extends a layout) up to depth 3 (thorough 4), with `break`/`continue` (each guarded by its own boolean) at every position the parser accepts; every if condition is its own context boolean and every loop iterates its own context list, and ALL assignments (2^k booleans x list lengths 0/1/2) are rendered when there are at most 160, else 160 sampled ones; in .txt and .html templates. Oracles per path: the verif_hooks balance monitor reports nothing (frame depth, capture depth, auto-escape stack, operand stack equal at entry and normal exit of every instruction-stream evaluation; no pop of a foreign frame/capture), a marker written after every top-level construct reaches the output in order, `{{ \"<\" }}` after it renders in the template's initial escape mode and `{{ \"<\" }}` printed right before and right after every nested scoped construct renders alike, a variable assigned inside an isolating construct (for, with, macro, call, block) is undefined after it, a variable assigned before keeps its value; no panic. Enumerated besides: includes (plain, ignore missing, lists of choices; 5 wrappers) of a template that exists and fails while one of its own constructs is open (7 failing statements x 10 open constructs): the render fails, or the text, escape mode and scope after the include are intact and the monitor reports nothing. Non-trivial: a break/continue separated from its loop by another scoped construct. Distinct by case.".into();
@@ -756,5 +841,6 @@ pub fn run(ctx: &mut Ctx) {
     preamble(ctx);
     let t = ctx.tier;
     ctx.run_enumerated::<FailingIncludes>(FailingIncludes::enumeration(t), true);
+    ctx.run_enumerated::<ControlsInElse>(ControlsInElse::enumeration(t), true);
     ctx.run_part::<Scopes>(t.pick(60_000, 1_000_000));
 }
